@@ -523,32 +523,32 @@ func setCompareOperators(r *RulesBasedSamplerCondition, condition string) error 
 		switch condition {
 		case NEQ:
 			r.Matches = func(spanValue any, exists bool) bool {
-				return convertToString(spanValue) != conditionValue
+				return exists && convertToString(spanValue) != conditionValue
 			}
 			return nil
 		case EQ:
 			r.Matches = func(spanValue any, exists bool) bool {
-				return convertToString(spanValue) == conditionValue
+				return exists && convertToString(spanValue) == conditionValue
 			}
 			return nil
 		case GT:
 			r.Matches = func(spanValue any, exists bool) bool {
-				return convertToString(spanValue) > conditionValue
+				return exists && convertToString(spanValue) > conditionValue
 			}
 			return nil
 		case GTE:
 			r.Matches = func(spanValue any, exists bool) bool {
-				return convertToString(spanValue) >= conditionValue
+				return exists && convertToString(spanValue) >= conditionValue
 			}
 			return nil
 		case LT:
 			r.Matches = func(spanValue any, exists bool) bool {
-				return convertToString(spanValue) < conditionValue
+				return exists && convertToString(spanValue) < conditionValue
 			}
 			return nil
 		case LTE:
 			r.Matches = func(spanValue any, exists bool) bool {
-				return convertToString(spanValue) <= conditionValue
+				return exists && convertToString(spanValue) <= conditionValue
 			}
 			return nil
 		}
